@@ -387,4 +387,129 @@ theorem filterMap_id_all_none (t : List (Option Str)) (h : ∀ x ∈ t, x = none
     subst this
     simpa using ih (fun y hy => h y (by simp [hy]))
 
+
+/-! ### `PurePath.stem` / `PurePath.suffix` -/
+
+theorem takeWhile_ne_dot_append (l t : Str) (h : '.' ∉ l) : (l ++ '.' :: t).takeWhile (· ≠ '.') = l := by
+  induction l with
+  | nil => simp
+  | cons x l ih =>
+    have hx : x ≠ '.' := fun e => h (by simp [e])
+    simp only [List.cons_append, List.takeWhile_cons, hx, ne_eq, not_false_eq_true, decide_true, if_true]
+    rw [ih (fun hm => h (by simp [hm]))]
+
+theorem dropWhile_ne_dot_append (l t : Str) (h : '.' ∉ l) : (l ++ '.' :: t).dropWhile (· ≠ '.') = '.' :: t := by
+  induction l with
+  | nil => simp
+  | cons x l ih =>
+    have hx : x ≠ '.' := fun e => h (by simp [e])
+    simp only [List.cons_append, List.dropWhile_cons, hx, ne_eq, not_false_eq_true, decide_true, if_true]
+    exact ih (fun hm => h (by simp [hm]))
+
+theorem dropWhile_ne_dot_none (l : Str) (h : '.' ∉ l) : l.dropWhile (· ≠ '.') = [] := by
+  induction l with
+  | nil => rfl
+  | cons x l ih =>
+    have hx : x ≠ '.' := fun e => h (by simp [e])
+    simp only [List.dropWhile_cons, hx, ne_eq, not_false_eq_true, decide_true, if_true]
+    exact ih (fun hm => h (by simp [hm]))
+
+/-- the split is at the *last* dot -/
+theorem splitLastDot_append (base ext : Str) (h : '.' ∉ ext) :
+    splitLastDot (base ++ '.' :: ext) = some (base, ext) := by
+  have hr : (base ++ '.' :: ext).reverse = ext.reverse ++ '.' :: base.reverse := by simp
+  have hn : '.' ∉ ext.reverse := by simpa using h
+  simp only [splitLastDot, hr, dropWhile_ne_dot_append _ _ hn, takeWhile_ne_dot_append _ _ hn, List.reverse_reverse]
+
+theorem splitLastDot_none (n : Str) (h : '.' ∉ n) : splitLastDot n = none := by
+  have hn : '.' ∉ n.reverse := by simpa using h
+  simp only [splitLastDot, dropWhile_ne_dot_none _ hn]
+
+theorem dropWhile_cons_decomp (p : Char → Bool) : ∀ (l : Str) (x : Char) (t : Str), l.dropWhile p = x :: t →
+    l = l.takeWhile p ++ x :: t ∧ ∀ y ∈ l.takeWhile p, p y = true
+  | [], x, t, h => by simp at h
+  | a :: l, x, t, h => by
+    cases hp : p a with
+    | true =>
+      simp only [List.dropWhile_cons, hp, if_true] at h
+      obtain ⟨h1, h2⟩ := dropWhile_cons_decomp p l x t h
+      simp only [List.takeWhile_cons, hp, if_true, List.cons_append]
+      refine ⟨by rw [← h1], ?_⟩
+      intro y hy
+      rcases List.mem_cons.1 hy with hy | hy
+      · rw [hy]; exact hp
+      · exact h2 y hy
+    | false =>
+      simp only [List.dropWhile_cons, hp, Bool.false_eq_true, if_false] at h
+      simp only [List.takeWhile_cons, hp, Bool.false_eq_true, if_false, List.nil_append]
+      exact ⟨h, by simp⟩
+
+theorem dropWhile_head_not (p : Char → Bool) : ∀ (l : Str) (x : Char) (t : Str), l.dropWhile p = x :: t → p x = false
+  | [], x, t, h => by simp at h
+  | a :: l, x, t, h => by
+    cases hp : p a with
+    | true =>
+      simp only [List.dropWhile_cons, hp, if_true] at h
+      exact dropWhile_head_not p l x t h
+    | false =>
+      simp only [List.dropWhile_cons, hp, Bool.false_eq_true, if_false] at h
+      injection h with h1 _
+      rw [← h1]; exact hp
+
+theorem splitLastDot_some (n b a : Str) (h : splitLastDot n = some (b, a)) : n = b ++ '.' :: a ∧ '.' ∉ a := by
+  unfold splitLastDot at h
+  simp only at h
+  split at h
+  · cases h
+  · rename_i x beforeRev hd
+    injection h with h
+    injection h with hb ha
+    have hx := dropWhile_head_not _ _ _ _ hd
+    have hx' : x = '.' := by simpa using hx
+    obtain ⟨h1, h2⟩ := dropWhile_cons_decomp _ _ _ _ hd
+    constructor
+    · have : n = (n.reverse).reverse := by simp
+      rw [this, h1, hx', ← hb, ← ha]
+      simp
+    · rw [← ha]
+      intro hm
+      have := h2 '.' (by simpa using hm)
+      simp at this
+
+/-- stem and suffix always partition the name -/
+theorem pathStem_append_pathSuffix (n : Str) : pathStem n ++ pathSuffix n = n := by
+  unfold pathStem pathSuffix
+  cases h : splitLastDot n with
+  | none => simp
+  | some ba =>
+    obtain ⟨b, a⟩ := ba
+    simp only
+    split
+    · simp
+    · exact (splitLastDot_some n b a h).1.symm
+
+/-- a name `base.ext` (non-empty base, non-empty dot-free ext): the stem is `base`, whatever `ext` is;
+`base` may contain dots itself — only the last suffix goes. -/
+theorem pathStem_ext (base ext : Str) (hb : base ≠ []) (he : ext ≠ []) (hd : '.' ∉ ext) :
+    pathStem (base ++ '.' :: ext) = base ∧ pathSuffix (base ++ '.' :: ext) = '.' :: ext := by
+  have hb' : base.isEmpty = false := by cases base <;> simp_all
+  have he' : ext.isEmpty = false := by cases ext <;> simp_all
+  simp [pathStem, pathSuffix, splitLastDot_append base ext hd, hb', he']
+
+theorem pathStem_no_dot (n : Str) (h : '.' ∉ n) : pathStem n = n ∧ pathSuffix n = [] := by
+  simp [pathStem, pathSuffix, splitLastDot_none n h]
+
+/-- a leading dot does not start a suffix (`.hidden`) -/
+theorem pathStem_leading_dot (rest : Str) (h : '.' ∉ rest) :
+    pathStem ('.' :: rest) = '.' :: rest ∧ pathSuffix ('.' :: rest) = [] := by
+  have := splitLastDot_append [] rest h
+  simp only [List.nil_append] at this
+  simp [pathStem, pathSuffix, this]
+
+/-- a trailing dot does not start a suffix (`name.`) -/
+theorem pathStem_trailing_dot (base : Str) :
+    pathStem (base ++ ['.']) = base ++ ['.'] ∧ pathSuffix (base ++ ['.']) = [] := by
+  have := splitLastDot_append base [] (by simp)
+  simp [pathStem, pathSuffix, this]
+
 end Pyxv.Backends
